@@ -120,3 +120,11 @@ def all_bytes_small(b):
 
 def any_byte_zero(b):
     return any(map(lambda c: c == 0, b))
+
+
+def any_nonzero(b):
+    return any(b)
+
+
+def all_nonzero(b):
+    return all(b)
